@@ -236,9 +236,11 @@ def run_cases(exe, cases, jobs=None, env=None, per_case_timeout=20):
             todo = todo[idx + 1:]
         return res
 
+    t0 = time.time()
     with ThreadPoolExecutor(max_workers=len(chunks)) as ex:
         for r in ex.map(work, list(enumerate(chunks))):
             results.update(r)
+    log("[drv] %d cases in %.1fs" % (len(cases), time.time() - t0))
     return results
 
 
@@ -296,6 +298,7 @@ def tlc(module, cfg, workers=None, env=None, timeout=3600, simulate=None, depth=
     finally:
         shutil.rmtree(meta, ignore_errors=True)
     r = TlcResult(p.returncode, p.stdout + p.stderr, time.time() - t0)
+    log("[tlc] %s %s: %d distinct states, rc=%d, %.1fs" % (module, os.path.basename(cfg), r.distinct, r.rc, r.wall))
     if "Parsing or semantic analysis failed" in r.out or "java.lang." in r.out and "Exception" in r.out and "TLC" not in module:
         raise ToolFailure("TLC could not process %s/%s:\n%s" % (module, cfg, r.out[-3000:]))
     return r
@@ -348,6 +351,9 @@ class Verdict:
         self.violations = []   # (fingerprint, replay_path, text)
         self.known = []
         self.findings = [f for f in load_findings().get("open", []) if f.get("property") == pid]
+        d = os.path.join(VERIF, "replays", pid)
+        if os.path.isdir(d) and not os.environ.get("VERIF_KEEP_REPLAYS"):
+            shutil.rmtree(d, ignore_errors=True)
 
     def violation(self, fingerprint, case, text):
         """fingerprint: stable class string of the failing case; case: JSON-able replay record."""
